@@ -15,11 +15,18 @@ pub const LONG_TOKENS: &[&str] = &[
     "aVeryLongIdentifierThatKeepsGoingAndGoingWellBeyondSixtyCharactersUntilItFinallyStops_0123456789",
     "123456789012345678901234567890123456789012345678901234567890123456789012345678901234567890",
     "@AnAnnotationWithAnExceptionallyLongNameThatNoOneWouldEverWriteButTheLexerMustAccept",
+    // multi-byte characters around byte offsets 40..70 of a long literal
+    "\"aaaaaaaaaaaaaaaaaaaaaaaaaaaaaaaaaaaaaaaaaaaaaa\u{e9}t\u{e9} - caf\u{e9} \u{65e5}\u{672c}\u{8a9e}\u{65e5}\u{672c}\u{8a9e}\u{65e5}\u{672c}\u{8a9e}\"",
+    "\"aaaaaaaaaaaaaaaaaaaaaaaaaaaaaaaaaaaaaaaaaaaaa\u{e9}\u{e9}\u{e9}\u{e9}\u{e9}\u{e9}\u{e9}\u{e9}\u{e9}\u{e9}\u{e9}\u{e9}\u{e9}\u{e9}\u{e9}\u{e9}\u{e9}\u{e9}\u{e9}\u{e9}\"",
+    "\"\u{1F600}\u{1F600}\u{1F600}\u{1F600}\u{1F600}\u{1F600}\u{1F600}\u{1F600}\u{1F600}\u{1F600}\u{1F600}\u{1F600}\u{1F600}\u{1F600}\u{1F600}\u{1F600}\u{1F600}\u{1F600}\u{1F600}\u{1F600}\u{1F600}\u{1F600}\u{1F600}\u{1F600}\u{1F600}\u{1F600}\u{1F600}\u{1F600}\u{1F600}\u{1F600}\u{1F600}\u{1F600}\u{1F600}\u{1F600}\u{1F600}\u{1F600}\u{1F600}\u{1F600}\u{1F600}\u{1F600}\"",
 ];
 
 pub const EXTRA_WORDS: &[&str] = &[
     "interfaces", "in", "int", "inout2", "1f", ".5", "0", "007", "99999999999", "-", "-5", "x", "Foo", "a.b", "true", "\"s\"",
     "@A", "List", "Map", "String", "void", "oneway", "const", "parcelable", "enum", "interface", "import", "package",
+    // case variants of keywords and of the token names the parser prints
+    "Interface", "Parcelable", "Enum", "Import", "Oneway", "Package", "Const", "Integer", "Boolean", "Float", "Annotation", "Ident",
+    "Direction", "Void", "Primitive", "integer", "ident", "IDENT", "INTEGER", "string", "list",
 ];
 
 pub fn vocab_token(s: &mut Src) -> String {
